@@ -13,5 +13,20 @@ def _oracle(S, b, trace):
     return out
 
 
-K = Kit("C13", _oracle, facilities=True)
+def _tweak(rng, c):
+    """workplace links declared on one side only (the conveyor rule reads the target's input list):
+    BaseWorkplace(input_workplace_list=[...]) without the source's output list, and output entries
+    without the target's input entry"""
+    if len(c.get("wps", [])) >= 2 and rng.random() < 0.2:
+        c["wp_oneside"] = True
+        n = len(c["wps"])
+        for pi in range(n):
+            if rng.random() < 0.5:
+                q = rng.choice([x for x in range(n) if x != pi])
+                c["wps"][pi].setdefault("out_only", []).append(q)
+                if not c["wps"][q]["inputs"] and rng.random() < 0.5:
+                    c["wps"][q]["inputs"] = [rng.choice([x for x in range(n) if x not in (pi, q)] or [q - 1 if q else 1])]
+
+
+K = Kit("C13", _oracle, facilities=True, tweak=_tweak)
 eval_case, run, replay = K.eval_case, K.run, K.replay
